@@ -1255,12 +1255,111 @@ def r2_nesting_discipline(corpus: Corpus, rep: Report, tier: str):
                         rep.ok("C02.R2", kk, fi.module.site(c), f"inside current_node_context({inner.args[0].id})")
                     else:
                         rep.violation("C02.R2", kk, fi.module.site(c), f"the innermost context around the rendering of the children is `{short(inner, 50)}`, not a node built by {fi.qualname}")
+            # (e) what is stored in the node of one child is computed from that child
+            for loop, x, use, stale in _per_child_values(an, fi):
+                kk = uniq(f"{fi.fq}|`{x}`, stored in the node built for each child, is computed from that child")
+                if stale:
+                    rep.violation("C02.R2", kk, fi.module.site(use), f"`{x}` is assigned only on some paths of an iteration of the per-child loop (and is not an accumulator), yet `{short(use, 50)}` stores it in the node built for the current child on every path: a child for which it is not assigned inherits the value computed for an earlier child (e.g. a table cell without alignment takes the alignment of the cell to its left)")
+                else:
+                    rep.ok("C02.R2", kk, fi.module.site(use), "assigned on every path of the iteration before it is stored")
         for fq, name, text, site in an.assumed:
             rep.assumed("C02.R2", f"{fq}|{name} rebound from itself|{text}", site, "the name is rebound to a value computed from the node itself (e.g. make_glossary_term(term.children)): the new node takes over the obligation")
         an.assumed.clear()
     if n_nodes < 40 or n_cont < 12:
         rep.error("C02.R2", f"vacuity guard: {n_nodes} node constructions / {n_cont} functions rendering children examined (expected >= 40 / >= 12)")
     rep.expect_min("C02.R2", 80, "node constructions + functions rendering children + child loops + context checks")
+
+
+def _root_name(e: ast.AST) -> str | None:
+    while isinstance(e, (ast.Subscript, ast.Attribute)):
+        e = e.value
+    return e.id if isinstance(e, ast.Name) else None
+
+
+def _per_child_values(an: Nesting, fi: FunctionInfo):
+    """For every loop that builds nodes: (loop, name, using statement, stale?) for each local that flows (data, or the
+    guard of the store) into a node built in the iteration and is itself assigned inside the loop. ``stale``: some path
+    from the start of an iteration reaches the use without assigning the name, so the value of an earlier iteration
+    is used. Accumulators (bindings that read the name itself, +=) are intended loop-carried state and are skipped."""
+    cfg = get_cfg(fi)
+    out = []
+    for loop in sorted((n for n in fi.local_nodes() if isinstance(n, (ast.For, ast.While))), key=lambda n: n.lineno):
+        inside = [n for b in loop.body for n in _walk_expr(b)]
+        stmts = [n for n in inside if isinstance(n, ast.stmt)]
+        produced = set()
+        for st in stmts:
+            if isinstance(st, (ast.Assign, ast.AnnAssign)) and st.value is not None:
+                tg = st.targets if isinstance(st, ast.Assign) else [st.target]
+                if len(tg) == 1 and isinstance(tg[0], ast.Name) and an.is_producer(st.value, fi):
+                    produced.add(tg[0].id)
+        if not produced:
+            continue
+        targets = {n.id for n in ast.walk(loop.target) if isinstance(n, ast.Name)} if isinstance(loop, ast.For) else set()
+
+        def loop_guards(st):
+            g = []
+            node = st
+            for a in ancestors(st):
+                if a is loop:
+                    break
+                if isinstance(a, (ast.If, ast.While)) and node is not a.test:
+                    g.append(a.test)
+                node = a
+            return g
+
+        uses: list[tuple[ast.stmt, list[ast.AST]]] = []
+        for st in stmts:
+            vals: list[ast.AST] = []
+            if isinstance(st, ast.Assign):
+                tl = []
+                for t in st.targets:
+                    tl.extend(t.elts if isinstance(t, (ast.Tuple, ast.List)) else [t])
+                if any(isinstance(t, (ast.Subscript, ast.Attribute)) and _root_name(t) in produced for t in tl):
+                    vals.append(st.value)
+                elif len(tl) == 1 and isinstance(tl[0], ast.Name) and tl[0].id in produced and isinstance(st.value, ast.Call):
+                    vals.extend(st.value.args)
+                    vals.extend(k.value for k in st.value.keywords)
+            elif isinstance(st, ast.AugAssign) and _root_name(st.target) in produced:
+                vals.append(st.value)
+            elif isinstance(st, ast.Expr) and isinstance(st.value, ast.Call) and isinstance(st.value.func, ast.Attribute) and st.value.func.attr in ("append", "extend", "insert", "update", "add", "setdefault") and _root_name(st.value.func.value) in produced:
+                vals.extend(st.value.args)
+            if vals:
+                uses.append((st, vals + loop_guards(st)))
+        seen: set[tuple[str, int]] = set()
+
+        def check(x: str, use: ast.stmt, depth: int):
+            if x in targets or x == "self" or (x, id(use)) in seen or depth > 3:
+                return
+            seen.add((x, id(use)))
+            binds = [st for st in stmts if _binds(st, x) is not False]
+            if not binds:
+                return  # loop-invariant
+            if any(isinstance(st, ast.AugAssign) and isinstance(st.target, ast.Name) and st.target.id == x for st in stmts):
+                return
+            if any(_binds(b, x) is True or _mentions(_binds(b, x), x) for b in binds):
+                return  # reads itself / bound by a nested loop or with: not the plain per-child recomputation
+            ustmt = cfg.stmt_of(use)
+            stale = cfg.paths_avoiding(("T", loop), ustmt, lambda n: n is loop or (isinstance(n, ast.stmt) and _binds(n, x) is not False))
+            out.append((loop, x, use, stale))
+            if not stale:
+                for b in binds:
+                    for e in [_binds(b, x)] + loop_guards(b):
+                        for nm in ast.walk(e):
+                            if isinstance(nm, ast.Name) and isinstance(nm.ctx, ast.Load):
+                                check(nm.id, b, depth + 1)
+
+        for st, vals in uses:
+            for v in vals:
+                for nm in ast.walk(v):
+                    if isinstance(nm, ast.Name) and isinstance(nm.ctx, ast.Load) and nm.id not in produced:
+                        check(nm.id, st, 0)
+    # one line per (loop, name): stale wins
+    best: dict[tuple[int, str], tuple] = {}
+    for loop, x, use, stale in out:
+        k = (id(loop), x)
+        if k not in best or (stale and not best[k][3]):
+            best[k] = (loop, x, use, stale)
+    return sorted(best.values(), key=lambda t: (t[0].lineno, t[1]))
 
 
 def _calls_overridden(corpus: Corpus, fi: FunctionInfo, klass) -> bool:
@@ -1533,16 +1632,87 @@ def _alt_contributions(fi: FunctionInfo) -> tuple[dict[str, tuple], tuple]:
     """Read ``renderInlineAsText``: per token type what it adds to the result - ("content",), ("recurse",),
     ("const", s) - plus the contribution of the final else branch (("none",) if absent)."""
     loops = [n for n in fi.local_nodes() if isinstance(n, ast.For) and isinstance(n.target, ast.Name)]
-    if len(loops) != 1:
-        raise Unsupported(f"{fi.fq}: expected one loop over the tokens")
-    loop = loops[0]
-    var = loop.target.id
+    wl = None  # work-list walk: (list name, pops from the front?)
+    if len(loops) == 1:
+        loop = loops[0]
+        var = loop.target.id
+        body = loop.body
+    else:
+        # iterative form: W = list(tokens); while W: tok = W.pop(i); <if-chain that pushes tok.children onto W>
+        wloops = [n for n in fi.local_nodes() if isinstance(n, ast.While) and isinstance(n.test, ast.Name)]
+        if loops or len(wloops) != 1:
+            raise Unsupported(f"{fi.fq}: expected one loop over the tokens")
+        loop = wloops[0]
+        w = loop.test.id
+        first = loop.body[0] if loop.body else None
+        if not (isinstance(first, ast.Assign) and len(first.targets) == 1 and isinstance(first.targets[0], ast.Name) and isinstance(first.value, ast.Call)
+                and isinstance(first.value.func, ast.Attribute) and first.value.func.attr in ("pop", "popleft") and unparse(first.value.func.value) == w):
+            raise Unsupported(f"{fi.fq}: work-list loop does not start with `x = {w}.pop(...)`")
+        pa = first.value.args
+        if first.value.func.attr == "popleft" or (len(pa) == 1 and isinstance(pa[0], ast.Constant) and pa[0].value == 0):
+            front = True
+        elif not pa or (len(pa) == 1 and unparse(pa[0]) == "-1"):
+            front = False
+        else:
+            raise Unsupported(f"{fi.fq}: `{short(first.value, 40)}` pops from the middle")
+        in_loop = {id(x) for x in ast.walk(loop)}
+        inits = [n.value for n in fi.local_nodes() if isinstance(n, ast.Assign) and id(n) not in in_loop and any(isinstance(t, ast.Name) and t.id == w for t in n.targets)]
+        if len(inits) != 1:
+            raise Unsupported(f"{fi.fq}: work list `{w}` is rebound")
+        init_rev = "reversed(" in unparse(inits[0]) or unparse(inits[0]).endswith("[::-1]")
+        if front == init_rev:
+            # a stack must be seeded in reverse, a queue in order
+            wl = (w, front, "seed")
+        else:
+            wl = (w, front, "")
+        var = first.targets[0].id
+        body = loop.body[1:]
+
+    def push_order(st) -> str | None:
+        """'' if the statement puts ``var.children`` where the in-order successor is expected, a reason if it puts
+        them elsewhere, None if the statement is no push of the children."""
+        if wl is None:
+            return None
+        w, front, seedbad = wl
+        ch = f"{var}.children"
+        txt = unparse(st)
+        if ch not in txt or w not in txt:
+            return None
+        if seedbad:
+            return f"the work list is seeded in the wrong direction for `{w}.pop({'0' if front else ''})`"
+        if isinstance(st, ast.Expr) and isinstance(st.value, ast.Call) and isinstance(st.value.func, ast.Attribute) and unparse(st.value.func.value) == w:
+            m, a = st.value.func.attr, st.value.args
+            rev = bool(a) and ("reversed(" in unparse(a[-1]) or unparse(a[-1]).endswith("[::-1]"))
+            if m == "extend" and not front:
+                return "" if rev else f"`{short(st, 50)}` pushes the children in order onto a stack: they are visited last-to-first"
+            if m in ("extend", "append") and front:
+                return f"`{short(st, 50)}` appends the children behind the remaining siblings of a queue: nested text is visited breadth-first, after the text that follows it"
+            if m == "extendleft" and front:
+                return "" if rev else f"`{short(st, 50)}`: extendleft reverses its argument"
+        if isinstance(st, ast.Assign) and len(st.targets) == 1:
+            t, v = st.targets[0], st.value
+            if isinstance(t, ast.Subscript) and unparse(t.value) == w and isinstance(t.slice, ast.Slice) and front:
+                lo, hi = t.slice.lower, t.slice.upper
+                if (lo is None or (isinstance(lo, ast.Constant) and lo.value == 0)) and isinstance(hi, ast.Constant) and hi.value == 0 and "reversed(" not in unparse(v):
+                    return ""
+            if isinstance(t, ast.Name) and t.id == w and isinstance(v, ast.BinOp) and isinstance(v.op, ast.Add):
+                l, r = unparse(v.left), unparse(v.right)
+                if front and ch in l and r == w and "reversed(" not in l:
+                    return ""
+                if front and l == w and ch in r:
+                    return f"`{short(st, 50)}` puts the children behind the remaining siblings: nested text is visited breadth-first"
+                if not front and l == w and ch in r and "reversed(" in r:
+                    return ""
+        raise Unsupported(f"{fi.fq}: push of the children `{short(st, 50)}` not understood")
 
     def contribution(body) -> tuple:
         out: tuple | None = None
         for st in body:
+            po = push_order(st) if not isinstance(st, ast.If) else None
             if isinstance(st, ast.If) and not st.orelse and unparse(st.test) in (f"{var}.children",):
                 c = contribution(st.body)
+            elif po is not None:
+                c = ("recurse",) if po == "" else ("recurse-out-of-order", po)
             elif isinstance(st, ast.AugAssign) and isinstance(st.op, ast.Add):
                 v = st.value
                 if isinstance(v, ast.Attribute) and v.attr == "content" and unparse(v.value) == var:
@@ -1564,7 +1734,6 @@ def _alt_contributions(fi: FunctionInfo) -> tuple[dict[str, tuple], tuple]:
 
     table: dict[str, tuple] = {}
     default: tuple = ("none",)
-    body = loop.body
     if len(body) != 1 or not isinstance(body[0], ast.If):
         raise Unsupported(f"{fi.fq}: loop body is not one if/elif chain")
     node = body[0]
@@ -1597,6 +1766,18 @@ def _alt_text_agreement(corpus: Corpus, rep: Report, tt: TokenTypes) -> None:
     containers = tt.containers() | {"image"}
     if "text" not in rt:
         raise Unsupported("reference renderInlineAsText does not handle text")
+    # nested inline markup (em, strong, link ...) must be walked in place, i.e. depth-first in source order
+    k = f"{mine.fq}|text of nested inline nodes joins the alt in source order"
+    ooo = [c for c in list(mt.values()) + [md] if c[0] == "recurse-out-of-order"]
+    if ooo:
+        rep.violation("C02.R3", k, mine.site(), f"{ooo[0][1]}: `![a *b* c](x)` gets the alt text 'a cb' instead of 'a b c'")
+    elif any(c == ("recurse",) for c in list(mt.values()) + [md]):
+        rep.ok("C02.R3", k, mine.site(), "children are visited in place (recursion, or an order-preserving work list)")
+    else:
+        rep.violation("C02.R3", k, mine.site(), "renderInlineAsText never descends into the children of nested inline nodes: `![*a*](x)` gets an empty alt text")
+    mt = {t: (("recurse",) if c[0] == "recurse-out-of-order" else c) for t, c in mt.items()}
+    if md[0] == "recurse-out-of-order":
+        md = ("recurse",)
     for t in sorted(rt):
         want = rt[t]
         got = mt.get(t, md)
@@ -2596,6 +2777,49 @@ def mutants(corpus: Corpus):
         out.append(("c02-level-prune-*", "dict-comprehension rebuild not found"))
     sel = find_node(f, lambda n: isinstance(n, ast.Compare) and unparse(n) == "level > section_level")
     add("c02-parent-includes-same-level", "C02.R6", base, sel, "level >= section_level", "parent candidate")
+
+    # class: the alt-text walk rewritten as a work list that does not visit nested children in place
+    f = base.func(R + "renderInlineAsText")
+    floop = find_node(f, lambda n: isinstance(n, ast.For))
+    rec = find_node(f, lambda n: isinstance(n, ast.AugAssign) and "renderInlineAsText" in unparse(n.value))
+    if floop is not None and rec is not None and len(floop.body) == 1 and isinstance(floop.body[0], ast.If) and isinstance(floop.target, ast.Name):
+        ind = indent_of(f, floop)
+        v = floop.target.id
+        chain = _seg(base, floop.body[0])
+        for mid, seed_, pop, push, exp in (
+            ("c02-alt-worklist-breadth-first", f"list({_seg(base, floop.iter)})", "pop(0)", f"pending.extend({v}.children or [])", "breadth-first"),
+            ("c02-alt-worklist-appended-behind", f"list({_seg(base, floop.iter)})", "pop(0)", f"pending = pending + list({v}.children or [])", "breadth-first"),
+            ("c02-alt-stack-children-in-order", f"list(reversed({_seg(base, floop.iter)}))", "pop()", f"pending.extend({v}.children or [])", "last-to-first"),
+        ):
+            body = chain.replace(_seg(base, rec), push)
+            add(mid, "C02.R3", base, floop, f"pending = {seed_}\n{ind}while pending:\n{ind}    {v} = pending.{pop}\n{ind}    {body}", exp)
+    else:
+        out.append(("c02-alt-worklist-*", "renderInlineAsText loop shape not found"))
+    # class: a per-child value that is only conditionally refreshed inside the per-child loop (stale fallback)
+    f = base.func(R + "render_table_row")
+    fseg = _seg(base, f.node)
+    app = find_node(f, lambda n: isinstance(n, ast.Expr) and isinstance(n.value, ast.Call) and unparse(n.value.func) == "entry['classes'].append")
+    first = f.node.body[0]
+    sty = find_node(f, lambda n: isinstance(n, ast.Assign) and unparse(n.targets[0]) == "style")
+    if app is not None and isinstance(parent(app), ast.If) and sty is not None:
+        iff = parent(app)
+        ind0 = indent_of(f, first)
+        indi = indent_of(f, iff)
+        seg_if = _seg(base, iff)
+        new_if = seg_if.replace(_seg(base, app), f"align_classes = [{_seg(base, app.value.args[0])}]") + f'\n{indi}entry["classes"].extend(align_classes)'
+        m1 = fseg.replace(seg_if, new_if).replace(_seg(base, first), f"align_classes: list[str] = []\n{ind0}" + _seg(base, first), 1)
+        add("c02-cell-alignment-inherited-from-left", "C02.R2", base, f.node, m1, "`align_classes`")
+        inds = indent_of(f, sty)
+        m2 = fseg.replace(_seg(base, sty), f"if {_seg(base, sty.value)}:\n{inds}    " + _seg(base, sty)).replace(_seg(base, first), f"style = None\n{ind0}" + _seg(base, first), 1)
+        add("c02-cell-style-conditionally-refreshed", "C02.R2", base, f.node, m2, "`style`")
+        par = find_node(f, lambda n: isinstance(n, ast.Assign) and unparse(n.targets[0]) == "para" and isinstance(n.value, ast.Call) and n.value.args and isinstance(n.value.args[0], ast.IfExp))
+        if par is not None:
+            ife = par.value.args[0]
+            indp = indent_of(f, par)
+            m3 = fseg.replace(_seg(base, par), f"if {_seg(base, ife.test)}:\n{indp}    raw = {_seg(base, ife.body)}\n{indp}para = nodes.paragraph(raw)").replace(_seg(base, first), f'raw = ""\n{ind0}' + _seg(base, first), 1)
+            add("c02-cell-rawsource-inherited", "C02.R2", base, f.node, m3, "`raw`")
+    else:
+        out.append(("c02-cell-*", "alignment store in render_table_row not found"))
 
     # ---- R4
     f = base.func(R + "render_paragraph")
